@@ -81,6 +81,36 @@ CLAIMS = {
               "between threads every 1-3 calls (constructors included) and demands identical observation streams, and the solo stream equals the model's."),
         note=NOTE + "The OS scheduler and memory model are outside the model.",
         ref="3.18"),
+
+    "C03": dict(
+        technique="Lean 4 proof (exact-arithmetic invariants, induction over arbitrary histories; negation proved by kernel-evaluated witnesses) + crash-predicting correspondence",
+        text=("Theorems over Q on a model in which every slice access of the Rust code is an explicit range test. Fixed-output types: after "
+              "ANY history (arbitrary calls, stepped and RAMPED ratio changes, chunk changes, resets) a call ends in Ok or in the Err of argument "
+              "validation, never in a panic or out-of-range access, and with valid arguments it is Ok (true since the fix: commits to the needed-size "
+              "formula). Fixed-input types: proved at constant ratio for every chunk-size schedule plus sufficient conditions for stepped changes; the "
+              "full statement is FALSE on this tree (findings D3/D4/D5, proved by kernel-evaluated witnesses; D12 proved for all positions). FFT types: "
+              "every valid call of every valid history is Ok. Tie: the model must predict every crash of the real crate at the same step; the harness "
+              "builds rubato with debug assertions and overflow checks so an out-of-range unchecked access aborts."),
+        note=NOTE + "Not covered: f64/f32 rounding of the index arithmetic (bit-exact Float twin + oracle), machine-word overflow, realfft/rustfft internals, NEON.",
+        ref="3.3"),
+    "C04": dict(
+        technique="Lean 4 proof (exact-arithmetic invariants over histories) + getter/count correspondence at every step",
+        text=("Theorems over Q: fixed-output: in every state of every history input_frames_next < input_frames_max, output_frames_next <= max, and an Ok call "
+              "returns exactly (input_frames_next, output_frames_next); fixed-input: getter bounds for every in-range ratio/target pair, frames produced <= "
+              "output_frames_next at constant ratio, false under ratio schedules (D5 witness); FFT: bounds and exact counts for every valid history; "
+              "process() returns what the core wrote. Tie: all six getters and the returned counts are compared with the model after every operation; "
+              "sentinel-filled buffers show exactly `out` frames are written."),
+        note=NOTE + "The f32 evaluation of needed_input_size is exact in the theorems; the Float twin mirrors it bit for bit.",
+        ref="3.4"),
+    "C07": dict(
+        technique="Lean 4 proof (potential-function induction over unbounded call lists; integer identities for FFT) + long-stream correspondence",
+        text=("Theorems: with G = total_in + last_index every call advances G by (frames produced)/r and nothing else does, hence after any number of calls "
+              "and any chunk-size schedule 0 <= r*in - out <= r*(L - L/2 + 1 + ceil(1/r)) (fixed-in) and r*L/2 <= r*in - out < r*(L/2+1) (fixed-out), both inside "
+              "the statement's constant; FFT: in*rate_out = out*rate_in + saved*rate_out with saved < fft_in (FixedIn), = (out+saved)*rate_in (FixedOut), exactly "
+              "zero for FixedInOut whose input size is the least admissible size >= the request, admissible sizes being the multiples of rate_in/gcd. "
+              "Oracle: streams of hundreds (thorough: tens of thousands) of calls incl. 1-frame chunks on the real crate."),
+        note=NOTE + "Accumulated f64 rounding of idx += t over very long streams is measured, not proved.",
+        ref="3.7"),
 }
 
 UNDER_CONSTRUCTION = "check under construction in this session (framework being built; see DESIGN.md section 3)"
